@@ -37,7 +37,7 @@ from ural.lru import lru_stems, url_to_lru, serialize_lru
 
 # ---------------------------------------------------------------------------------------------- universe
 SCHEMES = ("http", "https")
-PORTS = (None, "8080")
+PORTS = (None, "80", "8080")   # incl. an explicit port that is the default of one of the schemes: "same port" is about what is written
 # host chains, closed under "drop the left-most label": every ancestor host of a host is in the universe too
 HOST_CHAINS_QUICK = (
     ("com", "a.com", "www.a.com", "m.www.a.com"),           # plain chain of depth 4
